@@ -11,7 +11,39 @@ import (
 	rt "github.com/Syuparn/pangaea/zzverifrt"
 )
 
-func init() { rt.Register("H_C14_iter", H_C14_iter) }
+func init() {
+	rt.Register("H_C14_iter", H_C14_iter)
+	rt.Register("H_C14_capture", H_C14_capture)
+}
+
+// H_C14_capture: what a step yields may capture the step's arguments (a closure, an array):
+// the values yielded by earlier steps still say what they said after the iterator advanced.
+func H_C14_capture() {
+	h := NewH()
+	lim := c14Small(0, 4)
+	d := c14Small(1, 2)
+	n0 := c14Small(-1, 2)
+	h.Set("lim", object.NewPanInt(lim))
+	h.Set("d", object.NewPanInt(d))
+	h.Set("a", object.NewPanInt(n0))
+	var want []int64
+	for s := (c14State{n0}); ; {
+		v, more := s.next(lim, d)
+		if !more || len(want) > 8 {
+			break
+		}
+		want = append(want, v)
+	}
+	c14NilOn = false
+	for _, src := range []string{
+		`<{|n| yield {|| n * 10 + 1} if n < lim; recur(n + d)}>.new(a).A@{|f| f()}`,
+		`<{|n| yield [n * 10 + 1, {|| n}] if n < lim; recur(n + d)}>.new(a).A@{|p| p[1]() * 10 + 1}`,
+		`it := <{|n| yield {|| n * 10 + 1} if n < lim; recur(n + d)}>.new(a); fs := it@{|f| f}; fs@{|f| f()}`,
+	} {
+		rt.Note(src)
+		rt.Assert(arrOfInts(h.EvalNoPanic(src), want...), "a value yielded by an earlier step still holds that step's arguments after the iterator has advanced")
+	}
+}
 
 type c14State struct{ n int64 }
 
@@ -67,6 +99,10 @@ func H_C14_iter() {
 	if rt.Param(4) == 1 {
 		// the same iterator written without declared parameters (state in the implicit argument \)
 		lit = "gen := <{yield \\ * 10 + 1 if \\ < lim; recur(\\ + d)}>"
+	}
+	if rt.Param(4) == 3 {
+		// recur written BEFORE the yield: the rest of the step still sees this step's arguments
+		lit = `gen := <{|n| recur(n + d); yield n * 10 + 1 if n < lim}>`
 	}
 	if rt.Param(4) == 2 {
 		// a body whose first yield gives nil for one argument value z, followed by a second
